@@ -350,6 +350,8 @@ class Interp:
             old = st.cells.get(cell)
             if old is not None:
                 st.cells[cell] = set_at(old, path, val)
+            if self.hooks.get("elem_write"):
+                self.emit("elem_write", st=st, loc=loc, val=val)
             return
         remember = ()
         if cell[0] == "H" and isinstance(val, Int):
